@@ -38,6 +38,8 @@ func C02(c *Ctx) {
 	r.Rule("R02.6", "acceptance consumes the index: on every path of ProcessIBTP through the request branch (Category() == REQUEST and not a rollback notification) InterchainCounter[to] is advanced and the record is written back before the function returns - also when the target is unavailable and the transaction begins as failed; otherwise checkIBTP keeps expecting the same index and the identical request is accepted again.")
 	r.Rule("R02.7", "listed in the accepting block and in no other (shared with C09 R09.9, C01 R01.7): "+perBlockResetText)
 	r.Rule("R02.8", childReceiptFSMText)
+	r.Rule("R02.9", "a begun transaction names what it was before: the StatusChange that a Begin* entry of the transaction manager marshals for the interchain contract has its PrevStatus assigned on every path from its creation (or its last reset) to the Marshal - with -1 where the record did not exist, with the stored status otherwise. The zero value of PrevStatus is BEGIN: a change BEGIN -> BEGIN raises no notify flag, so an accepted request (counters advanced, index recorded) is listed in no delivery set.")
+	c.c02PrevStatus()
 	c.childReceiptThroughFSM("R02.8")
 	c.perBlockReset("R02.7")
 	c.c02Consumes()
@@ -858,4 +860,79 @@ func (c *Ctx) childReceiptThroughFSM(rule string) {
 		}
 	}
 	r.Floor(rule, "writes of the reporting child's entry in changeMultiTxStatus", n, 2)
+}
+
+// c02PrevStatus: R02.9.
+func (c *Ctx) c02PrevStatus() {
+	r := c.R
+	m := c.Contracts()
+	n := 0
+	hasPrevStore := func(a *ssa.Alloc) bool {
+		for _, rf := range *a.Referrers() {
+			if fa, ok := rf.(*ssa.FieldAddr); ok && fa.X == ssa.Value(a) {
+				if _, f, _, ok := core.FieldOf(fa); ok && f == "PrevStatus" {
+					for _, rr := range *fa.Referrers() {
+						if st, ok := rr.(*ssa.Store); ok && st.Addr == ssa.Value(fa) {
+							return true
+						}
+					}
+				}
+			}
+		}
+		return false
+	}
+	for _, fn := range m.funcs {
+		if !strings.Contains(core.FnName(fn), "contracts.TransactionManager).Begin") || fn.Parent() != nil {
+			continue
+		}
+		for _, call := range core.Calls(fn) {
+			if !strings.HasSuffix(core.CalleeName(call), "pb.StatusChange).Marshal") || len(call.Common().Args) == 0 {
+				continue
+			}
+			a, ok := call.Common().Args[0].(*ssa.Alloc)
+			if !ok {
+				continue
+			}
+			n++
+			// instructions that assign PrevStatus of a / that reset a as a whole
+			isSet := func(in ssa.Instruction) bool {
+				st, ok := in.(*ssa.Store)
+				if !ok {
+					return false
+				}
+				if fa, ok := st.Addr.(*ssa.FieldAddr); ok && fa.X == ssa.Value(a) {
+					_, f, _, ok := core.FieldOf(fa)
+					return ok && f == "PrevStatus"
+				}
+				if st.Addr == ssa.Value(a) {
+					if u, ok := st.Val.(*ssa.UnOp); ok {
+						if b, ok := u.X.(*ssa.Alloc); ok {
+							return hasPrevStore(b)
+						}
+					}
+					// a value produced elsewhere (a helper's result): assumed complete
+					_, isConst := st.Val.(*ssa.Const)
+					return !isConst
+				}
+				return false
+			}
+			var starts []core.Point
+			starts = append(starts, core.After(a))
+			for _, b := range fn.Blocks {
+				for _, in := range b.Instrs {
+					if st, ok := in.(*ssa.Store); ok && st.Addr == ssa.Value(a) && !isSet(in) {
+						starts = append(starts, core.After(in))
+					}
+				}
+			}
+			rs := core.Reach(starts, isSet, nil)
+			key := shortFn(fn) + ": PrevStatus of the marshalled StatusChange assigned on every path"
+			if rs.Has(call) {
+				r.Bad("R02.9", key, c.P.Pos(call.Pos()), "the StatusChange marshalled at "+c.P.Pos(call.Pos())+" can reach Marshal with PrevStatus never assigned (zero value = BEGIN); path (lines): "+rs.Witness(c.P, call)+": a newly begun transaction is reported as BEGIN -> BEGIN, no notify flag is raised and the accepted request is listed in no delivery set although its index was consumed")
+			} else {
+				r.OK("R02.9", key, c.P.Pos(call.Pos()), "every path from the creation / reset of the change to Marshal assigns PrevStatus")
+			}
+		}
+	}
+	r.Floor("R02.9", "StatusChange values marshalled by Begin* entries", n, 1)
 }
